@@ -402,8 +402,13 @@ func checkC18(c *Ctx) Meta {
 			c.Bad("C18-PAD", key, c.Pos(f.Pos()), "the pad helper no longer computes size - len(src): short values are not right-aligned")
 		}
 	}
+	c.Rule("C18-TABLE", "the shared big.Int constants and tables (checksum masks, shift values) are never written: no in-place big.Int operation has a package-level value or an element of a package-level table as its receiver — a mutated mask makes the mnemonic round trip work once per process and fail afterwards", 1)
+	checkTablesNotMutated(c, "C18-TABLE")
 	c.Rule("C18-BRANCHKEY", "the key a wallet address signs with is the BIP32 child of its own branch: at unlock each entry's private key is Child(index) of the branch key selected by the entry's recorded branch (external test selects the external branch key), the C05-BIND rule — otherwise an internal address gets the key of path …/0/i instead of …/1/i and no longer matches its public key", 1)
 	checkRederiveOwnPath(c, "C18-BRANCHKEY")
+	if f := c.Fn("poc/wallet/keystore", "(*AddrManager).nextAddresses"); f != nil {
+		checkPersistOwnPath(c, f, "C18-BRANCHKEY") // and the public key is stored under its own (branch, index), so a reload reports the path the key was derived on
+	}
 
 	return Meta{
 		Explanation: "Width discipline only: a forward label analysis (sources = (*big.Int).Bytes() in hdkeychain and the mnemonic code; propagation through locals, slices, parameters, returns and struct fields; sanitisers = the repository's pad helpers recognised by shape; width-insensitive consumers ignored) with fixed-offset copy / append / hash-write / base58 sinks. A short private key reaching the hardened-derivation buffer is the known btcsuite deviation and is a recorded known finding.",
@@ -535,4 +540,68 @@ func cellsPairedPrivate(w *widthTaint, fn *ssa.Function, key, priv ssa.Value) bo
 		}
 	}
 	return true
+}
+
+// checkTablesNotMutated: the package-level big.Int constants and tables of the key-derivation code
+// (checksum masks, shift values, bigOne…) are shared by every call: no in-place big.Int operation
+// (z.Add, z.Sub, z.Set…, which write their receiver) has a receiver that is one of them or an element of
+// one of them. `mask.Add(mask, one)` on a table entry makes the first decode of a sentence length work and
+// every later one fail its checksum.
+func checkTablesNotMutated(c *Ctx, rule string) {
+	mut := map[string]bool{"Add": true, "Sub": true, "Mul": true, "Div": true, "Mod": true, "Quo": true, "Rem": true, "DivMod": true, "QuoRem": true,
+		"Set": true, "SetBytes": true, "SetInt64": true, "SetUint64": true, "SetString": true, "SetBit": true, "SetBits": true,
+		"Lsh": true, "Rsh": true, "And": true, "Or": true, "Xor": true, "Not": true, "AndNot": true, "Neg": true, "Abs": true, "Exp": true, "ModInverse": true, "Sqrt": true}
+	n := 0
+	var bad []string
+	for fn := range c.AllFuncs {
+		p := pkgOf(fn)
+		if p != pkgKeystore && p != pkgHD {
+			continue
+		}
+		fn := fn
+		allInstrs(fn, func(in ssa.Instruction) {
+			cl, ok := in.(*ssa.Call)
+			if !ok || !strings.HasPrefix(calleeID(cl), "(*math/big.Int).") || !mut[callName(cl)] {
+				return
+			}
+			n++
+			recv := callRecv(cl)
+			if recv == nil {
+				return
+			}
+			shared := ""
+			valueOrigins(fn, recv, func(root ssa.Value) {
+				switch x := root.(type) {
+				case *ssa.UnOp:
+					if g, isG := x.X.(*ssa.Global); isG {
+						shared = g.Name()
+					}
+				case *ssa.Lookup:
+					for v := range backSlice(x.X).vals {
+						if g, isG := v.(*ssa.Global); isG {
+							shared = "an element of " + g.Name()
+						}
+					}
+				case *ssa.Extract:
+					if lk, isL := x.Tuple.(*ssa.Lookup); isL {
+						for v := range backSlice(lk.X).vals {
+							if g, isG := v.(*ssa.Global); isG {
+								shared = "an element of " + g.Name()
+							}
+						}
+					}
+				}
+			})
+			if shared != "" {
+				bad = append(bad, fmt.Sprintf("%s: %s.%s(…) at %s", fn.Name(), shared, callName(cl), c.Pos(cl.Pos())))
+			}
+		})
+	}
+	sort.Strings(bad)
+	key := "shared-big-ints-are-never-written"
+	if len(bad) > 0 {
+		c.Bad(rule, key, "", "an in-place big.Int operation writes a package-level value ("+strings.Join(bad, "; ")+"): the table entry changes under every later call, so a sentence that decoded once fails its checksum the next time")
+	} else {
+		c.OK(rule, key, "", fmt.Sprintf("%d in-place big.Int operations in the keystore and hdkeychain packages, none on a package-level value", n))
+	}
 }
